@@ -473,7 +473,24 @@ def strip_guarded(toks):
 
 
 def type_str(toks):
-    return ''.join(str(v) for _, v in toks)
+    """a type as written, normalised so that spelling changes do not matter: module paths are reduced
+    to their last segment (`core::fmt::Error` -> `Error`), lifetimes are dropped"""
+    out = []
+    i = 0
+    while i < len(toks):
+        k, v = toks[i]
+        if k == 'lt':
+            i += 1
+            if i < len(toks) and toks[i] == ('op', ',') and out and out[-1] == '<':
+                i += 1  # `<'a, T>` -> `<T>`
+            continue
+        if k == 'id' and i + 1 < len(toks) and toks[i + 1] == ('op', '::'):
+            i += 2
+            continue
+        out.append(str(v))
+        i += 1
+    txt = ''.join(out)
+    return txt.replace('<>', '').replace(',>', '>')
 
 
 def parse_struct(toks, name):
@@ -786,7 +803,7 @@ def main():
                   'impl_coap_message.rs', 'impl_coap_message_0_3.rs']]
     byname = dict(all_files)
     S = ['-- GENERATED by translator/gen_model.py from /repo/src – do not edit.',
-         '-- Field lists (declaration order, types as written) of the structs that carry the state the',
+         '-- Field lists (sorted by field name; types as written, module paths and lifetimes dropped) of the structs that carry the state the',
          '-- model describes, and every identifier that introduces state outside those values.',
          'namespace CoapLite.Shapes', '']
     for lean, file, struct in [('observer', 'observe.rs', 'Observer'), ('resource', 'observe.rs', 'Resource'),
@@ -805,7 +822,7 @@ def main():
                                ('linkFormatParser', 'link_format.rs', 'LinkFormatParser'),
                                ('linkAttributeParser', 'link_format.rs', 'LinkAttributeParser'),
                                ('unquote', 'link_format.rs', 'Unquote')]:
-        fields = parse_struct(byname[file], struct)
+        fields = sorted(parse_struct(byname[file], struct))
         S.append('def %s : List (String × String) := [%s]' % (
             lean, ', '.join('(%s, %s)' % (lean_str(a), lean_str(b)) for a, b in fields)))
     S.append('def globalState : List String := [%s]' % ', '.join(lean_str(x) for x in global_state(all_files)))
